@@ -156,6 +156,15 @@ def extract_table(cf, rep):
 
 
 def run(repo, rep, tier):
+    rep.rule("R-C04-11", "(shared with C07) the wrapper holds the GIL around partition(): the basins are built in process-wide work arrays, two interleaved "
+                         "calls mix the levels, the sort table and the label map of different spectra")
+    from .c07 import gil_held as _gil
+    _gil(repo, rep, "R-C04-11")
+    rep.rule("R-C04-12", "the number of levels and the smoothing switches the caller gives reach the watershed: every parameter of Partition.ptm3 / np_ptm3 is read, "
+                         "operands of the apply_ufunc call sit in the slots of the kernel parameters they are named after")
+    from .shared import unused_parameters as _unused, ufunc_forwarding as _fwd
+    _unused(repo, rep, "R-C04-12", ("wavespectra.partition.partition.Partition.ptm3", "wavespectra.partition.partition.np_ptm3"), "watershed entry points")
+    _fwd(repo, rep, "R-C04-12", ("wavespectra.partition.partition.Partition.ptm3",))
     rep.rule("R-C04-10", "the level loop of the immersion floods the bins of its level before it can exit: no break / return / continue of the level loop "
                          "precedes steps 1a-1c")
     cnative.level_loop_exits(repo, rep, "R-C04-10")
